@@ -1,7 +1,7 @@
 (* C11 Results do not depend on core count, scheduling, series order or unrelated data.
    Property theorems only; proofs in Compose.v, Shard.v. Partial: see the note below. *)
 From Coq Require Import List ZArith NArith Bool.
-From Verif Require Import Base Grid Select Shard Exec Compose.
+From Verif Require Import Base Grid Select Shard Exec Compose Bin BinProofs.
 Import ListNotations.
 Open Scope Z_scope.
 
@@ -27,11 +27,34 @@ Theorem C11_merge_is_unsharded_selection : forall lb off t parts,
 Proof. exact merge_step_select_0. Qed.
 Print Assumptions C11_merge_is_unsharded_selection.
 
+(* The vector/vector binary operator: the same labelled samples, presented
+   through two different series lists (another storage order, another sharding:
+   other series IDs) and in another order inside the step vectors, give the same
+   samples - at every step at which the reference evaluation succeeds. *)
+Theorem C11_join_order_independent :
+  forall (V : Type) (op : V -> V -> V * bool) (b2v : bool -> V) (on : bool) (ml incl : list N)
+         (c : Bin.card) (return_bool op_drops_name : bool)
+         lhs_series rhs_series lhs_series' rhs_series' (s s' : Z * list (nat * V) * list (nat * V)) out out',
+  BinProofs.one_side_unique on ml (BinProofs.one_side_series c lhs_series rhs_series) ->
+  BinProofs.one_side_unique on ml (BinProofs.one_side_series c lhs_series' rhs_series') ->
+  (Bin.is_one_to_one c = true -> incl = []) ->
+  BinProofs.good_step V lhs_series rhs_series s -> BinProofs.good_step V lhs_series' rhs_series' s' ->
+  Permutation.Permutation (Bin.labelled V lhs_series (snd (fst s))) (Bin.labelled V lhs_series' (snd (fst s'))) ->
+  Permutation.Permutation (Bin.labelled V rhs_series (snd s)) (Bin.labelled V rhs_series' (snd s')) ->
+  Bin.ref_operator_step V op b2v on ml incl c return_bool op_drops_name lhs_series rhs_series (snd (fst s)) (snd s) = Some out ->
+  Bin.ref_operator_step V op b2v on ml incl c return_bool op_drops_name lhs_series' rhs_series' (snd (fst s')) (snd s') = Some out' ->
+  forall m v,
+    In (m, v) (BinProofs.step_samples V op b2v on ml incl c return_bool op_drops_name lhs_series rhs_series s) <->
+    In (m, v) (BinProofs.step_samples V op b2v on ml incl c return_bool op_drops_name lhs_series' rhs_series' s').
+Proof. exact BinProofs.join_order_independent. Qed.
+Print Assumptions C11_join_order_independent.
+
 (* PARTIAL. Proved: independence of the shard count and of batching for every
    operator tree, with each operator's Next taken as atomic and the coalesce
    merging in operator order (as the code does since the fix recorded in
-   known_findings.json). Not proved here: invariance under permutations of the
-   storage's series order and under unrelated series (these change the series
-   indices; the statement would be up to a renaming of IDs), and true goroutine
-   interleavings inside an operator (not expressible in a functional model).
-   Those are decided by the procs/perm oracles of the check. *)
+   known_findings.json); for the join, independence of the series order and
+   numbering. Not proved here: invariance of whole operator trees under
+   permutations of the storage's series order and under unrelated series (these
+   change the series indices; the statement would be up to a renaming of IDs),
+   and true goroutine interleavings inside an operator (not expressible in a
+   functional model). Those are decided by the procs/perm oracles of the check. *)
